@@ -375,7 +375,55 @@ def oracle_C04(inp):
 
 # ------------------------------------------------------------------------------------------ C14
 
+_ELSEWHERE = r'''
+import sys, json, pickle, base64, copy
+from spil import Sid
+uris = json.loads(sys.stdin.read())
+sids = [Sid(u) for u in uris]
+seen = set(sids)                       # hashed, compared, used as a key: as any producer would have
+[s == t for s in sids[:5] for t in sids[:5]]
+[repr(s) for s in sids]
+for s in sids:
+    try:
+        s.path()
+    except BaseException:
+        pass
+sys.stdout.write("@@" + base64.b64encode(pickle.dumps(sids)).decode() + "\n")
+'''
+
+
+def _pickled_elsewhere(uris):
+    """the Sids of `uris` built, hashed and pickled by ANOTHER interpreter (another hash seed), loaded here"""
+    import subprocess, sys, os, json, pickle, base64
+    seed = os.environ.get("PYTHONHASHSEED", "")
+    env = dict(os.environ, PYTHONHASHSEED="7" if seed != "7" else "8")
+    p = subprocess.run([sys.executable, "-W", "ignore", "-c", _ELSEWHERE], input=json.dumps(uris), env=env,
+                       capture_output=True, text=True, timeout=120)
+    for line in p.stdout.splitlines():
+        if line.startswith("@@"):
+            return pickle.loads(base64.b64decode(line[2:]))
+    raise RuntimeError("no answer from the other interpreter: %s" % (p.stderr or p.stdout)[-300:])
+
+
+def oracle_C14_elsewhere(inp):
+    uris = inp["pickled_elsewhere"]
+    out = []
+    loaded = _pickled_elsewhere(uris)
+    for u, x in zip(uris, loaded):
+        y = Sid(u)
+        if x.uri != y.uri:
+            continue      # (not the subject here: the uri of a Sid read back)
+        if x != y or hash(x) != hash(y) or x not in {y} or {y: 1}.get(x) != 1 or len({x, y}) != 1:
+            out.append("Sid(%r) hashed and pickled by another interpreter, loaded here: == %r, hash equal %r, found in a set of the equal Sid %r"
+                       % (u, x == y, hash(x) == hash(y), x in {y}))
+        if (str(x), x.type, list(x.fields.items())) != (str(y), y.type, list(y.fields.items())):
+            out.append("Sid(%r) read back from a pickle: %r / %r / %r" % (u, str(x), x.type, list(x.fields.items())))
+    return out
+
+
 def oracle_C14(inp):
+    if "pickled_elsewhere" in inp:
+        return oracle_C14_elsewhere(inp)
     out = []
     a, b = Sid(inp["a"]), Sid(inp["b"])
     if (a == b) != (a.uri == b.uri):
@@ -1328,6 +1376,21 @@ def oracle_C16(inp):
                     out.append("GetFromAll.get(%r) yields records for types configured without Getter" % s)
             except BaseException as e:  # noqa
                 out.append("GetFromAll.get(%r) raised %s: %s" % (s, type(e).__name__, e))
+        elif us:
+            # some types of the search have a Getter, some have none: exactly the records of the former
+            try:
+                A = list(GetFromAll().get(s, attributes=attributes, sid_encode=enc))
+                key = lambda r: _json.dumps(r, sort_keys=True, default=str)
+                keep = [rec for x, rec in zip(F, R) if conf.get_getter_for(x) is not None]
+                got, want = list(map(key, A)), list(map(key, keep))
+                if ">" in s:
+                    got, want = sorted(got), sorted(want)
+                if got != want:
+                    out.append("GetFromAll.get(%r): the search unfolds into types with a Getter %r and without %r; expected the records of the former %r, got %r"
+                               % (s, [u.type for u in us if conf.get_getter_for(u) is not None],
+                                  [u.type for u in us if conf.get_getter_for(u) is None], keep, A))
+            except BaseException as e:  # noqa
+                out.append("GetFromAll.get(%r) raised %s: %s" % (s, type(e).__name__, e))
         if R:
             one = GetFromPaths().get_one(s, attributes=attributes, sid_encode=enc)
             if dict(one) != dict(R[0]):
@@ -1360,49 +1423,58 @@ def oracle_C18(inp):
         build([task + "/" + vs(n) + tail])
     for n, t2 in inp.get("others", []):     # versions that exist without this state / file
         build([task + "/" + vs(n) + t2])
-    existing = sorted(set(versions))
-    last = max(existing) if existing else None
-    probes = [task] if not tail else []
-    probes += [task + "/" + vs(n) + tail for n in (existing[:2] + [5, 998, 999])]
-    probes += [task + "/*" + tail, task + "/>" + tail]
-    for p in probes:
-        x = Sid(p)
-        if not x:
-            continue
-        try:
-            gl, gn, gw = x.get_last("version"), x.get_next("version"), x.get_new("version")
-        except BaseException as e:  # noqa
-            out.append("%r: version call raised %s: %s" % (p, type(e).__name__, e))
-            continue
-        cur = x.get("version")
-        exp_last = (task + "/" + vs(last) + tail) if last is not None else ""
-        if str(gl) != exp_last:
-            out.append("%r.get_last('version') = %r, expected %r (existing %r)" % (p, str(gl), exp_last, existing))
-        if cur in ("*", ">"):
+    full_tail = tail
+    for tail in [full_tail] + [pt for pt in inp.get("probe_tails", []) if pt != full_tail]:      # the same data asked at a higher level
+        # the versions that exist: for the full tail, the ones that were built; for a higher level of the same data,
+        # the built versions whose Sid at that level exists() (a level may be served by constants: C12's notion of existing)
+        existing = sorted(set(versions))
+        if tail != full_tail:
+            built = sorted(set(list(versions) + [n for n, _ in inp.get("others", [])]))
+            existing = [n for n in built if Sid(task + "/" + vs(n) + tail).exists()]
+        last = max(existing) if existing else None
+        probes = [task] if not tail else []
+        beyond = [n for n in ((last or 0) + 1, (last or 0) + 4) if n <= 999]      # versions that do not exist, above the last
+        probes += [task + "/" + vs(n) + tail for n in (existing[:2] + [5, 998, 999] + beyond)]
+        probes += [task + "/*" + tail, task + "/>" + tail]
+        for p in probes:
+            x = Sid(p)
+            if not x:
+                continue
+            try:
+                gl, gn, gw = x.get_last("version"), x.get_next("version"), x.get_new("version")
+            except BaseException as e:  # noqa
+                out.append("%r: version call raised %s: %s" % (p, type(e).__name__, e))
+                continue
+            cur = x.get("version")
+            exp_last = (task + "/" + vs(last) + tail) if last is not None else ""
+            if str(gl) != exp_last:
+                out.append("%r.get_last('version') = %r, expected %r (existing %r)" % (p, str(gl), exp_last, existing))
+            if cur in ("*", ">"):
+                n = (last or 0) + 1
+            elif cur:
+                n = int(cur[1:]) + 1
+            else:
+                n = 1
+            exp_next = (task + "/" + vs(n) + tail) if n <= 999 else ""
+            if cur is None and tail == "":
+                exp_next = task + "/" + vs(1)
+            if str(gn) != exp_next:
+                out.append("%r.get_next('version') = %r, expected %r" % (p, str(gn), exp_next))
             n = (last or 0) + 1
-        elif cur:
-            n = int(cur[1:]) + 1
-        else:
-            n = 1
-        exp_next = (task + "/" + vs(n) + tail) if n <= 999 else ""
-        if cur is None and tail == "":
-            exp_next = task + "/" + vs(1)
-        if str(gn) != exp_next:
-            out.append("%r.get_next('version') = %r, expected %r" % (p, str(gn), exp_next))
-        n = (last or 0) + 1
-        exp_new = (task + "/" + vs(n) + tail) if n <= 999 else ""
-        if last is None and cur not in (None, "*", ">"):
-            exp_new = str(gw)      # nothing exists: "successor of the last existing version" is undefined
-        if str(gw) != exp_new:
-            out.append("%r.get_new('version') = %r, expected %r" % (p, str(gw), exp_new))
-        if gw and gw.exists():
-            out.append("%r.get_new('version') = %r already exists" % (p, str(gw)))
-        for y in (gl, gn, gw):
-            if y:
-                fx, fy = dict(x.fields), dict(y.fields)
-                fx.pop("version", None); fy.pop("version", None)
-                if fx != fy or (y.type != x.type and cur):
-                    out.append("%r: version call changed other fields / type: %r" % (p, y.uri))
+            exp_new = (task + "/" + vs(n) + tail) if n <= 999 else ""
+            if last is None and cur not in (None, "*", ">"):
+                exp_new = str(gw)      # nothing exists: "successor of the last existing version" is undefined
+            if str(gw) != exp_new:
+                out.append("%r.get_new('version') = %r, expected %r" % (p, str(gw), exp_new))
+            if gw and (gw.exists() if tail == full_tail else (last is not None and Sid(task + "/" + gw.get("version")).exists())):
+                out.append("%r.get_new('version') = %r already exists" % (p, str(gw)))
+            for y in (gl, gn, gw):
+                if y:
+                    fx, fy = dict(x.fields), dict(y.fields)
+                    fx.pop("version", None); fy.pop("version", None)
+                    if fx != fy or (y.type != x.type and cur):
+                        out.append("%r: version call changed other fields / type: %r" % (p, y.uri))
+    tail = full_tail
     # publishing get_new repeatedly
     x = Sid(task + "/*" + tail)
     seen = []
